@@ -15,6 +15,8 @@ LEVEL_NOTE = 'Trusted: clang AST; spec tables as oracle; the scheduling simulati
 EXPLANATION = ('SS-EXH (14 x 5), SS-RULES, SS-SIZE, SS-ADDRREG, SPEC-SSTABLES, SS-EXEC, IMM-ENC, SPEC-BLAKEGEN. SS-EXH for A64 / RV64.'
          ' SS-RULES (evaluated), X86-/A64-/RV-SS-HSEM, A64-IMMHELP.')
 
+EXPLANATION += ' RVV-SS-HSEM, RVV-SS-RCPPOOL (literal paging of the vector generator).'
+
 
 def run(ctx, R):
     F = astq.Facts(ctx, 'K0')
